@@ -64,10 +64,24 @@ type caseJSON struct {
 	Tree    *jnode      `json:"tree,omitempty"`
 	Canon   bool        `json:"canon,omitempty"`
 	Files   [][3]string `json:"files,omitempty"` // multipart: (name, filename, content) hex
+	// chunked: the body (body_hex / tree) is delivered in pieces; API 0 = WriteRequestBody,
+	// 1 = ReadRequestBodyFrom(reader with Len), 2 = ReadRequestBodyFrom(plain reader)
+	Chunks    []chunkJSON `json:"chunks,omitempty"`
+	BodyLimit int         `json:"body_limit,omitempty"` // SecRequestBodyLimit
+	Reject    bool        `json:"reject,omitempty"`     // SecRequestBodyLimitAction Reject (else ProcessPartial)
+	// mptrunc: multipart parts in order (file when filename != ""), the body is cut after Cut bytes
+	Parts   [][3]string `json:"parts,omitempty"`
+	Cut     int         `json:"cut,omitempty"`
+	Partial bool        `json:"partial,omitempty"` // deliver the whole body under a ProcessPartial limit = Cut
 	Orig    [][2]string `json:"orig,omitempty"`  // the list the carrier was encoded from (round-trip oracle)
 	Via     string      `json:"via,omitempty"`   // query | cookie | headers | urlencoded | json | jsontree
 	Obs     any         `json:"obs,omitempty"`
 	Finding string      `json:"finding_key,omitempty"`
+}
+
+type chunkJSON struct {
+	API int    `json:"api"`
+	Len int    `json:"len"`
 }
 
 type pair struct{ K, V string }
@@ -359,6 +373,8 @@ type wafKey struct {
 	limit, depth  int
 	access, force bool
 	ctl           string
+	bodyLimit     int  // SecRequestBodyLimit (0 = default)
+	reject        bool // SecRequestBodyLimitAction Reject (else ProcessPartial) when bodyLimit > 0
 }
 
 var wafs = map[wafKey]coraza.WAF{}
@@ -391,6 +407,14 @@ func getWAF(k wafKey) (coraza.WAF, error) {
 	}
 	if k.depth > 0 {
 		fmt.Fprintf(&d, "SecRequestBodyJsonDepthLimit %d\n", k.depth)
+	}
+	if k.bodyLimit > 0 {
+		fmt.Fprintf(&d, "SecRequestBodyLimit %d\n", k.bodyLimit)
+		if k.reject {
+			d.WriteString("SecRequestBodyLimitAction Reject\n")
+		} else {
+			d.WriteString("SecRequestBodyLimitAction ProcessPartial\n")
+		}
 	}
 	if k.ctl != "" {
 		fmt.Fprintf(&d, "SecAction \"id:1,phase:1,nolog,pass,ctl:requestBodyProcessor=%s\"\n", k.ctl)
@@ -988,6 +1012,10 @@ func (rn *runner) runCase(c *caseJSON) error {
 		return rn.runMultipart(c)
 	case "xml":
 		return rn.runXML(c)
+	case "chunked":
+		return rn.runChunked(c)
+	case "mptrunc":
+		return rn.runMPTrunc(c)
 	default:
 		return fmt.Errorf("unknown case kind %q", c.Kind)
 	}
